@@ -305,10 +305,19 @@ class Check:
         self.assumptions = []
         self.findings = load_findings()
         self.outdir = os.path.join(VERIF, "out", "replay", pid)
+        # tools/selftest.py: corrupt every recorded trace in one way and expect the check to report it
+        self.selftest = os.environ.get("VERIF_SELFTEST", "")
+        if self.selftest:
+            self.outdir = os.path.join(self.scratch, "replay")
+            self.cov["selftest_mutated_traces"] = 0
+            self.mutated = {}
 
     # -- model checking ---------------------------------------------------
     def model(self, module, cfg, workers=NCPU, timeout=1800, env=None, extra=(), heap="8g",
               expect_ok=True, simulate=None):
+        if getattr(self, "selftest", "") and module in ("MC_Machine.tla", "MC_Oddpos.tla", "MC_TruncI.tla", "MC_LocalOps.tla"):
+            # self-test of the trace binding: the pure models are not what is being tested
+            return {"out": "", "wall": 0.0, "timed_out": False}, tlc_stats("")
         ex = list(extra)
         if simulate:
             ex += ["-simulate", simulate]
@@ -337,6 +346,14 @@ class Check:
         progs = {p["tid"]: p for p in programs}
         sub = tempfile.mkdtemp(prefix="conf", dir=self.scratch)
         shards, st = replay_programs(programs, sub, env=env)
+        if self.selftest:
+            from . import mutate
+            kind, _, which = self.selftest.rpartition(":") if ":" in self.selftest else (self.selftest, "", "")
+            for sh in shards:
+                done = mutate.mutate_shard(sh, kind, int(which or 0))
+                self.mutated.update(done)
+                self.cov["selftest_mutated_traces"] += len(done)
+        self._nonvacuity(shards)
         verdicts, problems = validate_shards(shards, sub)
         self.problems += problems
         ts = validate_shards.last_stats
@@ -441,6 +458,24 @@ class Check:
             self.violations.append((sorted({c for c, _ in unknown}), path))
 
     # -- wrap up ------------------------------------------------------------
+    def _nonvacuity(self, shards):
+        """coverage.result_nonzero[op] = [events whose first array result stores a non-zero element, events with an
+        array result]: a driver whose results are mostly empty exercises little."""
+        tab = self.cov.setdefault("result_nonzero", {})
+        for sh in shards:
+            with open(sh) as f:
+                for line in f:
+                    ev = json.loads(line)
+                    if ev["op"] in ("init", "rel") or ev.get("outcome") != "ok" or not ev.get("out"):
+                        continue
+                    v = ev["regs"].get(ev["out"][0])
+                    if not (isinstance(v, dict) and v.get("t") in ("array", "vector")):
+                        continue
+                    e = tab.setdefault(ev["op"], [0, 0])
+                    e[1] += 1
+                    if any(b.get("exact") is False or any(x != [0, 0] for x in b.get("data", [])) for b in v["blocks"]):
+                        e[0] += 1
+
     def _count_drift(self, v):
         """L2: entries "L2+<op>" only say that the implementation-shaped prediction was computed for the
         event; everything else is a disagreement between prediction and code (never an alarm)."""
@@ -465,6 +500,20 @@ class Check:
               "violations": len(self.violations), "known_findings": self.known}
         if not cov["samples"]:
             cov["samples"] = [{"note": "no program sampled"}]
+        if self.selftest:
+            # a self-test run never writes evidence; it reports what the corrupted traces made fail
+            clauses = sorted({c for cl, _ in self.violations for c in cl})
+            reported = {int(os.path.basename(p)[5:-5]) for _, p in self.violations}
+            missed = sorted(t for t in self.mutated if t not in reported)
+            print("SELFTEST " + json.dumps({"property": self.pid, "mutator": self.selftest,
+                                            "unreported": [[t, self.mutated[t]] for t in missed[:12]],
+                                            "unreported_count": len(missed),
+                                            "mutated_traces": cov.get("selftest_mutated_traces", 0),
+                                            "violating_traces": len(self.violations), "clauses": clauses,
+                                            "problems": len(self.problems),
+                                            "problem_text": [str(p)[-1500:] for p in self.problems[:2]]}))
+            shutil.rmtree(self.scratch, ignore_errors=True)
+            return 2 if self.problems else (1 if self.violations else 0)
         os.makedirs(os.path.join(VERIF, "evidence"), exist_ok=True)
         with open(os.path.join(VERIF, "evidence", f"{self.pid}.json"), "w") as f:
             json.dump(ev, f, indent=1, sort_keys=True, default=str)
